@@ -7,7 +7,7 @@
     inner `while` over the bounds) is translated but not bridged: [read_and_cut_lines] keeps the model's
     [fwd_lines] for it (hybrid), and the correspondence check ties it. *)
 From Coq Require Import ZArith Bool List Lia.
-From TucModel Require Import Base.Bytes Model.Bounds Model.Scan Model.Utf8 Model.Regex Model.Opt Model.CutBytes Model.CutStr Model.CutLines
+From TucModel Require Import Base.Bytes Model.Bounds Model.Scan Model.Utf8 Model.Regex Model.Opt Model.CutBytes Model.CutStr Model.CutLines Proofs.Utf8Snoc
   Tie.RsPrelude Tie.TieBase Tie.RsOpt Tie.RsStr Tie.RsList Tie.RsLines Tie.Bridge_print_bof Tie.LinesFacts
   Tie.Gen_ub_matches Tie.Bridge_ub_matches
   Tie.Gen_lines_forward.
@@ -203,9 +203,8 @@ End Inner.
 
 (** ------------------------------------------------------------------------------------------------
     The main loop: one raw line after the other, each handed to the inner loop, until the input or the
-    bounds are exhausted; then the finishing stages.  For inputs every line of which is valid UTF-8 with
-    and without its terminator in the same way (appending an ASCII terminator does not change validity; not
-    proved here, hence a hypothesis), fewer than 2^31 - 1 lines... *)
+    bounds are exhausted; then the finishing stages.  (A line is valid UTF-8 with its ASCII terminator exactly
+    when it is without it: Proofs/Utf8Snoc.v.) *)
 Definition of_outcome_fwd (m : outcome) (x : rs (option unit * bytes)) : Prop :=
   match m with
   | Done out => x = Ret (Some tt, out)
@@ -303,11 +302,13 @@ Theorem tie_lines_forward_whole : forall (o : opt) (input : bytes),
   items (o_bounds o) <> [] ->
   Z.of_nat (length (items (o_bounds o))) + 1 <= usize_max ->
   Z.of_nat (length input) + 1 <= i32_max ->
-  (forall l, In l (records (o_eol o) input) -> utf8_valid (l ++ [o_eol o]) = utf8_valid l) ->
+  (o_eol o < 128)%N ->
   of_outcome_fwd (fwd_lines o (records (o_eol o) input) (items (o_bounds o)) false 0 [])
                  (gen_lines_forward input o).
 Proof.
-  intros o input Hne Hn Hlen Hutf.
+  intros o input Hne Hn Hlen Heol.
+  assert (Hutf : forall l, In l (records (o_eol o) input) -> utf8_valid (l ++ [o_eol o]) = utf8_valid l)
+    by (intros l _; apply utf8_valid_snoc, Heol).
   cbv beta delta [gen_lines_forward gen_lines_forward_s1 gen_lines_forward_s2 gen_lines_forward_s3 gen_lines_forward_s4] iota zeta.
   assert (Hpos : (0 < length (items (o_bounds o)))%nat) by (destruct (items (o_bounds o)); [contradiction | cbn; lia]).
   match goal with |- of_outcome_fwd _ (bind (loopWhile ?fuel ?step ?st) ?aft) =>
